@@ -330,6 +330,8 @@ def eval_monad_reverse(a, backend):
                               |1  -->  1
 
     """
+    if not is_iterable(a):
+        return a
     if backend.is_backend_array(a):
         np_mod = backend.np
         if hasattr(np_mod, 'flip'):
